@@ -364,20 +364,19 @@ Proved: the statement for every tree that satisfies the decidable predicate `Pri
   and a `FlattenedAxis` directly over a `ConcatenatedAxis` (printed `((a + b))`, re-parsed without the outer parentheses);
   i.e. `Op` of one or two `Args`; below them named axes with a valid name, numeric axes, `FlattenedAxis` (not over a
   `FlattenedAxis`/`ConcatenatedAxis`), `Brackets` (not nested, not empty), `Ellipsis` over the anonymous axis or over one
-  axis / flattened axis / brackets / concatenation, `ConcatenatedAxis` of ≥ 2 axes or flattened axes, `List`s of 0 or ≥ 2
+  axis / flattened axis / brackets / concatenation / `...`, `ConcatenatedAxis` of ≥ 2 axes or flattened axes, `List`s of 0 or ≥ 2
   non-list children; concatenations and ellipses ARE covered;
-* two restrictions of the proof, not of the truth (both kinds of tree do round-trip, see `printable_restrictions`):
-  no numeric axis inside brackets (the proof that the fresh names of two numeric axes of the re-parsed tree differ — needed
-  for the inconsistent-brackets check — is missing), and the printed text has no two adjacent spaces (it has them only
-  when the left side of `->` ends with an empty argument, `"a,  -> b"`; the duplicate-space pass is not modelled in the
-  proof);
 * `t` itself passes the inconsistent-brackets check.
-Missing for the statement about the image of `parse_op`: a proof that every result of `parseOp` without the three patterns
-satisfies `PRoot` (normal form of the parser's output; checked by `printable_image_samples` and, during development, on
-all 177155 texts of ≤ 5 symbols).
+There are no further restrictions.  Two restrictions of an earlier version of the proof are lifted: numeric axes may stand inside
+brackets (the fresh names `unnamed.<token position>` of the re-parsed tree are pairwise distinct — `Fresh.parse_fresh_nodup`:
+lexer positions strictly increase, the duplicate-space pass and the delimiter stack keep the order, `parse` uses every token at
+most once — so the inconsistent-brackets check cannot fire on them, `Fresh.fresh_unique`), and the printed text may contain two
+adjacent spaces (it does exactly when the left side of `->` ends with an empty argument, `"a,  -> b"`, `Adj.root_adj`; the
+duplicate-space pass drops one of them, `Adj.dedup_one`, and `parse` strips the other, `parse_printed_adj`).
+That every result of `parseOp` without the three patterns satisfies `Printable` is `parse_printable` below.
 
 Layers (Proofs/): `textsOK_PRoot` (the printed text is the concatenation of well separated token texts),
-`segment_pieces`/`lex_pieces` (lexer), `dedup_no_adj`, `buildTree_texts` (delimiter stack), `parse_printed` (`parse`
+`segment_pieces`/`lex_pieces` (lexer), `dedup_no_adj`/`Adj.dedup_one` (duplicate-space pass), `buildTree_texts` (delimiter stack), `parse_printed` (`parse`
 inverts every printing rule: axis, number, parentheses, brackets, `...`, ` + `, ` `, `, `, ` -> `), `finish_nf` (the passes
 after `parse` only add the `Op`/`Args` wrappers on a normal form), `conflict_free_of_shape` (the bracket check). -/
 
@@ -402,12 +401,13 @@ theorem printable_image_samples :
       "a ->", ", a", "", "a... b", "[a...]", "(a b)...", "... a", "(a + 1)... [b]... 2", "a (b (c d)) -> , ()"].all printableOf) = true := by
   decide +kernel
 
-/-- The three refuted patterns are not `Printable`; and the two restrictions of the proof exclude trees that do round-trip
-    (a numeric axis inside brackets; adjacent spaces in the printed text). -/
+/-- The three refuted patterns are not `Printable`; the two former restrictions of the proof are lifted: a numeric axis inside
+    brackets, adjacent spaces in the printed text and `......` are `Printable` (and do round-trip). -/
 theorem printable_restrictions :
     (printableOf "[[a b]...]" = false ∧ printableOf "[[......]...]" = false ∧ printableOf "((a + b) -> c)" = false) ∧
-    (printableOf "a [1]" = false ∧ roundTrips "a [1]" = true) ∧
-    (printableOf "a, -> b" = false ∧ roundTrips "a, -> b" = true) := by decide +kernel
+    (printableOf "a [1]" = true ∧ roundTrips "a [1]" = true) ∧
+    (printableOf "a, -> b" = true ∧ roundTrips "a, -> b" = true) ∧
+    (printableOf "b ......" = true ∧ roundTrips "b ......" = true) := by decide +kernel
 
 /-- Round trip *tested* (a `decide` on samples is a test, not a theorem) on descriptions covering every node kind, both
     `move_up` passes and the redundant-bracket pass; the general statement is false (above) and its true part is checked
@@ -436,8 +436,9 @@ but not the printed text: `Ellipsis` over a `List` (bracket pass: `[[a b]...]`, 
 `Ellipsis` over anything but the anonymous axis (bracket pass: `[[a...]...]`, printed `a......`; `......` itself, an ellipsis over
 `...`, is NOT excluded: it re-parses to the same tree), `FlattenedAxis` over a `ConcatenatedAxis` (first `move_up` pass:
 `((a + b) -> c)`; bracket pass: `[([(a + b)])]`; printed `((a + b))`).  Each comes with a `decide`d witness that it is necessary
-(`excluded_patterns_necessary`).  `Excluded` additionally contains the restrictions of `print_parse_partial` that are still open;
-for these the round trip does hold on the witnesses (`excluded_open_restrictions`), they are restrictions of the proof.
+(`excluded_ell_list_necessary`, `excluded_ell_ell_necessary`, `excluded_flat_concat_necessary`).  `Excluded` contains nothing else:
+the former restrictions of `print_parse_partial` (numeric axis inside brackets, adjacent spaces in the printed text, `......`) are
+removed by proof (`former_restrictions_lifted`).
 
 **Round trip** (`parse_print_parse`).  For every string `s`: if `parseOp s = .ok t` and `Excluded t = false`, then `parseOp t.print`
 succeeds with a tree of the same `shape`. -/
@@ -494,34 +495,34 @@ def excludedOf (s : String) : Bool :=
   | .error _ => true
 
 /-- Which of the components of `Excluded` hold for the tree of a text:
-    (ellipsis over list, ellipsis over ellipsis, flattened axis over concatenation, numeric axis in brackets, adjacent spaces). -/
-def excludedWhy (s : String) : Option (Bool × Bool × Bool × Bool × Bool) :=
+    (ellipsis over list, ellipsis over non-anonymous ellipsis, flattened axis over concatenation). -/
+def excludedWhy (s : String) : Option (Bool × Bool × Bool) :=
   match parseOp s.toList with
-  | .ok t => some (anyNode patEllList t, anyNode patEllEll t, anyNode patFlatConcat t, numInBr false t, hasAdjSpaces (textsL t.ptree))
+  | .ok t => some (anyNode patEllList t, anyNode patEllEll t, anyNode patFlatConcat t)
   | .error _ => none
 
 /-- Each of the three excluded patterns is necessary: a text whose tree is excluded by that pattern ALONE and whose printed
     form does not parse back to the same tree.  (The first is relative to the extracted brace constant.) -/
 theorem excluded_ell_list_necessary :
-    excludedWhy "[[a b]...]" = some (true, false, false, false, false) ∧
+    excludedWhy "[[a b]...]" = some (true, false, false) ∧
       (Einx.Extracted.ellipsisOpen = "{" → roundTrips "[[a b]...]" = false) := by
   decide +kernel
 
 theorem excluded_ell_ell_necessary :
-    excludedWhy "[[a...]...]" = some (false, true, false, false, false) ∧ roundTrips "[[a...]...]" = false := by
+    excludedWhy "[[a...]...]" = some (false, true, false) ∧ roundTrips "[[a...]...]" = false := by
   decide +kernel
 
 /-- `FlattenedAxis` over `ConcatenatedAxis` arises in the first `move_up` pass and in the bracket pass. -/
 theorem excluded_flat_concat_necessary :
-    (excludedWhy "((a + b) -> c)" = some (false, false, true, false, false) ∧ roundTrips "((a + b) -> c)" = false) ∧
-    (excludedWhy "[([(a + b)])]" = some (false, false, true, false, false) ∧ roundTrips "[([(a + b)])]" = false) := by
+    (excludedWhy "((a + b) -> c)" = some (false, false, true) ∧ roundTrips "((a + b) -> c)" = false) ∧
+    (excludedWhy "[([(a + b)])]" = some (false, false, true) ∧ roundTrips "[([(a + b)])]" = false) := by
   decide +kernel
 
-/-- The two open restrictions inside `Excluded` are restrictions of the proof, not of the truth: the witnesses are excluded
-    by that restriction ALONE and do round-trip. -/
-theorem excluded_open_restrictions :
-    (excludedWhy "a [1]" = some (false, false, false, true, false) ∧ roundTrips "a [1]" = true) ∧
-    (excludedWhy "a, -> b" = some (false, false, false, false, true) ∧ roundTrips "a, -> b" = true) := by
+/-- The former restrictions of `print_parse_partial` are no longer part of `Excluded`: a numeric axis inside brackets, adjacent
+    spaces in the printed text (`"a,  -> b"`), an ellipsis over `...`. -/
+theorem former_restrictions_lifted :
+    excludedOf "a [1]" = false ∧ excludedOf "[[1] 2] (3 -> [4])" = false ∧ excludedOf "a, -> b" = false ∧
+      excludedOf "(a, -> b) [c]" = false ∧ excludedOf "b ......" = false := by
   decide +kernel
 
 /-- Non-vacuity of `parse_print_parse`: texts covering every node kind, both `move_up` passes and the bracket pass are not
